@@ -87,7 +87,7 @@ Fixpoint sliced_text_all (nsl : nat) (fuel : nat) (m x : N) (t : text) (s : vm) 
           let '(r, x') :=
             match prepare_eval d s with
             | ROk _ s1 => resume nsl m x s1
-            | RErr e msg s1 => (ROk (Failed e msg) s1, x)
+            | RErr e msg s1 => (ROk (Failed e msg None) s1, x)
             | RPanic k => (RPanic k, x)
             | RNoFuel => (RNoFuel, x)
             end in
@@ -97,7 +97,7 @@ Fixpoint sliced_text_all (nsl : nat) (fuel : nat) (m x : N) (t : text) (s : vm) 
               | Some r' => sliced_text_all nsl f m x' r' s' (FOk c :: acc)
               | None => (rev (FOk c :: acc), s', x')
               end
-          | ROk (Failed e msg) s' =>
+          | ROk (Failed e msg _) s' =>
               match rest with
               | Some r' => sliced_text_all nsl f m x' r' s' (FErr e msg :: acc)
               | None => (rev (FErr e msg :: acc), s', x')
@@ -130,10 +130,10 @@ Definition run_sliced_from (b : option vm) (m x : N) (forms : list text) : list 
   end.
 
 (* ------------------------------------- registers after each datum (74) *)
-Definition show_state (s : vm) : list N :=
+Definition show_state (s : vm) (tr : option trace) : list N :=
   S_ " [sp="%string ++ show_N (sp s) ++ S_ " bp="%string ++ show_N (bp s)
   ++ S_ " cap="%string ++ show_N (len (stack s)) ++ S_ " frames="%string
-  ++ match last_trace s with Some fs => show_N (len fs) | None => [45] end ++ [93].
+  ++ match tr with Some fs => show_N (len fs) | None => [45] end ++ [93].
 
 Fixpoint state_text_all (ef : nat) (fuel : nat) (t : text) (s : vm) (acc : list N) : list N * vm :=
   match fuel with
@@ -144,9 +144,9 @@ Fixpoint state_text_all (ef : nat) (fuel : nat) (t : text) (s : vm) (acc : list 
           match eval_cell_f ef d s with
           | ROk r s' =>
               let line := match r with
-                          | Done c => show_form_result (FOk c)
-                          | Failed e m => show_form_result (FErr e m)
-                          | Yield => show_form_result FNoFuel end ++ show_state s' in
+                          | Done c => show_form_result (FOk c) ++ show_state s' None
+                          | Failed e m tr => show_form_result (FErr e m) ++ show_state s' tr
+                          | Yield => show_form_result FNoFuel end in
               match rest with
               | Some r' => state_text_all ef f r' s' (acc ++ line)
               | None => (acc ++ line, s')
@@ -186,7 +186,7 @@ Fixpoint hw_text_all (ef : nat) (fuel : nat) (t : text) (s : vm) (acc : list N) 
           let '(r, hw) :=
             match prepare_eval d s with
             | ROk _ s1 => step_hw ef 0 s1
-            | RErr e msg s1 => (ROk (Failed e msg) s1, 0)
+            | RErr e msg s1 => (ROk (Failed e msg None) s1, 0)
             | RPanic k => (RPanic k, 0)
             | RNoFuel => (RNoFuel, 0)
             end in
@@ -194,7 +194,7 @@ Fixpoint hw_text_all (ef : nat) (fuel : nat) (t : text) (s : vm) (acc : list N) 
           | ROk rr s' =>
               let line := match rr with
                           | Done c => show_form_result (FOk c)
-                          | Failed e m => show_form_result (FErr e m)
+                          | Failed e m _ => show_form_result (FErr e m)
                           | Yield => show_form_result FNoFuel end
                           ++ S_ " hw="%string ++ show_N hw in
               match rest with
